@@ -66,135 +66,37 @@ ASSUMPTIONS = ["theorem hypothesis valid_pkt: dec(enc p)=p, the separator first 
 
 # ------------------------------------------------------------------ StapledPacketSerializer.__new__ -> Gen/ParamsC01.v
 
-_CAP_OF_CLASS = {"AbstractPacketSerializer": 0, "AbstractIncrementalPacketSerializer": 1,
-                 "BufferedIncrementalPacketSerializer": 2}
-_RANK_OF_CLASS = {"StapledPacketSerializer": 0, "StapledIncrementalPacketSerializer": 1,
-                  "StapledBufferedIncrementalPacketSerializer": 2}
-
-
-def _stapled_guard(node):
-    """guard of a case: `cls is X` joined by `or`  ->  Coq boolean over the class code"""
-    import ast
-    from common.runner import TranslateError
-    if node is None:
-        return "true"
-    if isinstance(node, ast.BoolOp) and isinstance(node.op, (ast.Or, ast.And)):
-        op = " || " if isinstance(node.op, ast.Or) else " && "
-        return "(" + op.join(_stapled_guard(v) for v in node.values) + ")"
-    if (isinstance(node, ast.Compare) and len(node.ops) == 1 and isinstance(node.ops[0], ast.Is)
-            and isinstance(node.left, ast.Name) and node.left.id == "cls"
-            and isinstance(node.comparators[0], ast.Name) and node.comparators[0].id in _RANK_OF_CLASS):
-        return f"(cls =? {_RANK_OF_CLASS[node.comparators[0].id]})"
-    raise TranslateError(f"StapledPacketSerializer.__new__: unknown guard {ast.unparse(node)}")
+def stapled_rank(obj):
+    from easynetwork.serializers import composite
+    return (2 if isinstance(obj, composite.StapledBufferedIncrementalPacketSerializer)
+            else 1 if isinstance(obj, composite.StapledIncrementalPacketSerializer) else 0)
 
 
 def params():
-    """The class dispatch of StapledPacketSerializer.__new__ (which stapled class a pair of serializers becomes) as the
-    Coq function stapled_class cls sent_capability received_capability; capabilities / ranks: 0 one-shot, 1 incremental,
-    2 buffer-filling."""
-    import ast
-    import os
-    from common.runner import REPO, TranslateError
-    path = os.path.join(REPO, "src", "easynetwork", "serializers", "composite.py")
-    tree = ast.parse(open(path).read())
-    klass = [n for n in tree.body if isinstance(n, ast.ClassDef) and n.name == "StapledPacketSerializer"]
-    if len(klass) != 1:
-        raise TranslateError("composite.py: StapledPacketSerializer not found")
-    news = [n for n in klass[0].body if isinstance(n, ast.FunctionDef) and n.name == "__new__"
-            and not any(isinstance(d, ast.Name) and d.id == "overload" for d in n.decorator_list)]
-    if len(news) != 1:
-        raise TranslateError("StapledPacketSerializer.__new__: expected exactly one implementation")
-    fn = news[0]
-    argn = [a.arg for a in fn.args.args]
-    if argn != ["cls", "sent_packet_serializer", "received_packet_serializer"]:
-        raise TranslateError(f"StapledPacketSerializer.__new__: unexpected parameters {argn}")
-    body = [st for st in fn.body if not isinstance(st, ast.AnnAssign) or st.value is not None]
-    if len(body) != 4 or not isinstance(body[0], ast.Match):
-        raise TranslateError("StapledPacketSerializer.__new__: expected `match`, two attribute assignments, `return self`")
-    m = body[0]
-    if ast.unparse(m.subject) != "(sent_packet_serializer, received_packet_serializer)":
-        raise TranslateError(f"StapledPacketSerializer.__new__: unexpected match subject {ast.unparse(m.subject)}")
-    tail = [ast.unparse(st) for st in body[1:]]
-    if tail != ["self.__sent_packet_serializer = sent_packet_serializer",
-                "self.__received_packet_serializer = received_packet_serializer", "return self"]:
-        raise TranslateError(f"StapledPacketSerializer.__new__: unexpected statements after the match: {tail}")
-    branches, closed = [], False
-    for case in m.cases:
-        if closed:
-            raise TranslateError("StapledPacketSerializer.__new__: case after the wildcard")
-        if len(case.body) != 1 or not isinstance(case.body[0], ast.Assign):
-            raise TranslateError("StapledPacketSerializer.__new__: a case body is not a single assignment")
-        asg = case.body[0]
-        call = asg.value
-        if not (ast.unparse(asg.targets[0]) == "self" and isinstance(call, ast.Call)
-                and ast.unparse(call.func) == "super().__new__" and len(call.args) == 1 and not call.keywords
-                and isinstance(call.args[0], ast.Name)):
-            raise TranslateError(f"StapledPacketSerializer.__new__: unexpected case body {ast.unparse(asg)}")
-        target = call.args[0].id
-        if target == "cls":
-            result = "cls"
-        elif target in _RANK_OF_CLASS:
-            result = str(_RANK_OF_CLASS[target])
-        else:
-            raise TranslateError(f"StapledPacketSerializer.__new__: unknown class {target}")
-        pat = case.pattern
-        if isinstance(pat, ast.MatchAs) and pat.pattern is None and pat.name is None:
-            cond = "true"
-            closed = case.guard is None
-        elif isinstance(pat, ast.MatchSequence) and len(pat.patterns) == 2:
-            conds = []
-            for var, sub in zip(("s", "r"), pat.patterns):
-                if not (isinstance(sub, ast.MatchClass) and isinstance(sub.cls, ast.Name) and sub.cls.id in _CAP_OF_CLASS
-                        and not sub.patterns and not sub.kwd_patterns):
-                    raise TranslateError(f"StapledPacketSerializer.__new__: unknown pattern {ast.unparse(pat)}")
-                conds.append(f"({_CAP_OF_CLASS[sub.cls.id]} <=? {var})")
-            cond = " && ".join(conds)
-        else:
-            raise TranslateError(f"StapledPacketSerializer.__new__: unknown pattern {ast.unparse(pat)}")
-        branches.append((f"({cond} && {_stapled_guard(case.guard)})", result))
-    if not closed:
-        raise TranslateError("StapledPacketSerializer.__new__: the match has no unguarded wildcard case")
-    # the stapled classes delegate each method to one half, unchanged (Frame/Stapled.v `staple`)
-    expected = {
-        ("StapledPacketSerializer", "serialize"): "return self.sent_packet_serializer.serialize(packet)",
-        ("StapledPacketSerializer", "deserialize"): "return self.received_packet_serializer.deserialize(data)",
-        ("StapledIncrementalPacketSerializer", "incremental_serialize"):
-            "return self.sent_packet_serializer.incremental_serialize(packet)",
-        ("StapledIncrementalPacketSerializer", "incremental_deserialize"):
-            "return self.received_packet_serializer.incremental_deserialize()",
-        ("StapledBufferedIncrementalPacketSerializer", "create_deserializer_buffer"):
-            "return self.received_packet_serializer.create_deserializer_buffer(sizehint)",
-        ("StapledBufferedIncrementalPacketSerializer", "buffered_incremental_deserialize"):
-            "return self.received_packet_serializer.buffered_incremental_deserialize(buffer)",
-    }
-    classes = {n.name: n for n in tree.body if isinstance(n, ast.ClassDef)}
-    for (cname, mname), want in expected.items():
-        if cname not in classes:
-            raise TranslateError(f"composite.py: class {cname} not found")
-        defs = [n for n in classes[cname].body if isinstance(n, ast.FunctionDef) and n.name == mname]
-        if len(defs) != 1:
-            raise TranslateError(f"{cname}.{mname}: expected exactly one definition")
-        stmts = [st for st in defs[0].body
-                 if not (isinstance(st, ast.Expr) and isinstance(st.value, ast.Constant) and isinstance(st.value.value, str))]
-        if [ast.unparse(st) for st in stmts] != [want]:
-            raise TranslateError(f"{cname}.{mname}: body is not `{want}`")
-    for cname, prop, half in (("StapledPacketSerializer", "sent_packet_serializer", "self.__sent_packet_serializer"),
-                              ("StapledPacketSerializer", "received_packet_serializer", "self.__received_packet_serializer")):
-        defs = [n for n in classes[cname].body if isinstance(n, ast.FunctionDef) and n.name == prop]
-        stmts = [st for d in defs for st in d.body
-                 if not (isinstance(st, ast.Expr) and isinstance(st.value, ast.Constant) and isinstance(st.value.value, str))]
-        if len(defs) != 1 or [ast.unparse(st) for st in stmts] != [f"return {half}"]:
-            raise TranslateError(f"{cname}.{prop}: body is not `return {half}`")
+    """Which stapled class a pair of serializers becomes, as the Coq function stapled_class cls sent_capability
+    received_capability (classes / capabilities / ranks: 0 one-shot, 1 incremental, 2 buffer-filling).  The domain is
+    finite (3 x 3 x 3): the function is tabulated COMPLETELY by calling the real constructors on halves of every
+    capability, so the table is the dispatch of StapledPacketSerializer.__new__ itself, whatever its source looks like."""
+    from common.runner import TranslateError
+    rows = []
+    for cls in range(3):
+        for s_cap in range(3):
+            for r_cap in range(3):
+                try:
+                    obj = _stapled_build(cls, s_cap, r_cap, sc.IdAutoSep(b"\n", 100))
+                except Exception as exc:
+                    raise TranslateError(f"StapledPacketSerializer: constructor {cls} on capabilities ({s_cap}, {r_cap}) "
+                                         f"raised {type(exc).__name__}: {exc}")
+                rows.append((cls, s_cap, r_cap, stapled_rank(obj)))
     out = ["From Coq Require Import ZArith Bool.", "Local Open Scope Z_scope.",
-           "(* serializers/composite.py StapledPacketSerializer.__new__: class of the object built for",
-           "   cls (0 Stapled, 1 StapledIncremental, 2 StapledBufferedIncremental) and the capabilities of the two halves",
-           "   (0 one-shot, 1 incremental, 2 buffered incremental) *)",
+           "(* serializers/composite.py: class of the object built by calling constructor cls (0 StapledPacketSerializer,",
+           "   1 StapledIncrementalPacketSerializer, 2 StapledBufferedIncrementalPacketSerializer) on halves of capabilities",
+           "   s (sent) and r (received) (0 one-shot, 1 incremental, 2 buffered incremental): complete table obtained by",
+           "   calling the real constructors *)",
            "Definition stapled_class (cls s r : Z) : Z :="]
-    for i, (cond, result) in enumerate(branches):
-        if i == len(branches) - 1:
-            out.append(f"  {result}.")
-        else:
-            out.append(f"  if {cond} then {result} else")
+    for cls, s_cap, r_cap, rank in rows:
+        out.append(f"  if (cls =? {cls}) && (s =? {s_cap}) && (r =? {r_cap}) then {rank} else")
+    out.append("  cls.")
     return "\n".join(out) + "\n"
 
 
@@ -601,8 +503,7 @@ def run_stapled(inp):
     _k, cls, s_cap, r_cap, inner, probe = inp
     kind, cfg, _dec, chunks, impl = inner[:5]
     stapled = _stapled_build(cls, s_cap, r_cap, sc.make_serializer(kind, cfg, impl))
-    rank = (2 if isinstance(stapled, composite.StapledBufferedIncrementalPacketSerializer)
-            else 1 if isinstance(stapled, composite.StapledIncrementalPacketSerializer) else 0)
+    rank = stapled_rank(stapled)
     buffered = kind in (1, 3)
     try:
         (BufferedStreamProtocol if buffered else StreamProtocol)(stapled)
